@@ -171,6 +171,7 @@ var reviewedBare = map[string]string{
 	"Client.Start|send local:chan string":              "stdout line hand-off; a consumer always exists: Start's select, then the deferred drain goroutine (R-ORDER O4)",
 	"Client.Start|range local:chan string":             "drain until the scanner goroutine closes the channel at EOF",
 	"Serve|send local:chan<- *plugin.ReattachConfig":   "test mode only: the test harness receives the reattach config",
+	"Serve|send ServeTestConfig.ReattachConfigCh":      "test mode only: the test harness receives the reattach config (same send, written on the field instead of a local alias)",
 	"Serve|recv local:chan struct{}":                   "after cancellation Serve waits for the server's done channel, closed by Serve()/Quit",
 	"Serve|recv local:chan os.Signal":                  "interrupt eater goroutine; lives as long as the plugin process",
 	"gRPCBrokerServer.StartStream|send sendErr.ch":     "reply to Send(), which is blocked receiving on this per-call channel",
